@@ -366,7 +366,7 @@ func runChild(c *cli.Ctx) error {
 		}
 		// contention on the float accumulators: amounts on a dyadic grid, so the exact sum is representable and every
 		// order of additions gives it; a lost or doubled update shows in the total (counter, gauge, vec child)
-		{
+		if p < 24 {
 			fc := prometheus.NewCounter(prometheus.CounterOpts{Name: "frac_c"})
 			fg := prometheus.NewGauge(prometheus.GaugeOpts{Name: "frac_g"})
 			fv := prometheus.NewCounterVec(prometheus.CounterOpts{Name: "frac_v"}, []string{"a"})
@@ -407,7 +407,7 @@ func runChild(c *cli.Ctx) error {
 			}
 		}
 		// overlapping WriteToTextfile calls for the same target: every call succeeds and the file is a whole exposition
-		{
+		if p < 24 {
 			dir, derr := os.MkdirTemp("", "c10tf")
 			if derr == nil {
 				treg := prometheus.NewRegistry()
